@@ -101,6 +101,10 @@ impl TxModel {
 #[derive(Clone)]
 struct WriterGate {
     model: Rc<RefCell<TxModel>>,
+    /// In a third of the commits another writer runs one step while the COMMIT is in flight
+    /// (file database only: with the single connection of the in-memory pool the other writer
+    /// could need the very connection the suspended writer still owns).
+    overlap_commit: bool,
 }
 
 impl Gate for WriterGate {
@@ -124,7 +128,20 @@ impl Gate for WriterGate {
         if _method == "begin" {
             self.model.borrow_mut().attempt(me);
         }
+        if _method == "commit" && self.overlap_commit && ctx::chance("commit.overlap", 1, 3) {
+            // The COMMIT stays inside SQLite's commit hook on the worker thread until one step of
+            // another writer has run (released through `StepExec::overlap_release`).
+            ctx::fault("step_during_in_flight_commit");
+            simworld::populate::hold_commits(true);
+            stepexec::request_preempt_in_flight();
+        }
         Ok(())
+    }
+    fn after(&self, method: &'static str) {
+        if method == "commit" {
+            stepexec::clear_preempt_request();
+            simworld::populate::hold_commits(false);
+        }
     }
 }
 
@@ -245,7 +262,7 @@ impl Property for C10Prop {
         vec!["cancellation points are store-call boundaries and the park inside begin(); dropping a writer while a pool-level command is in flight (sqlx discards the connection) is not part of this check", "a writer cancelled before calling commit() counts as aborted"]
     }
     fn expected_probes(&self) -> Vec<&'static str> {
-        vec!["writer_parked_in_begin", "permit_dropped_with_open_tx", "cancel_while_parked_in_begin", "begin_after_abort_completed"]
+        vec!["writer_parked_in_begin", "permit_dropped_with_open_tx", "cancel_while_parked_in_begin", "begin_after_abort_completed", "commit_left_in_flight"]
     }
     fn run(&self) {
         let mode = ctx::mode();
@@ -295,13 +312,17 @@ impl Property for C10Prop {
         stepexec::block_on(async move {
             let sqlite = if file_db {
                 let _ = std::fs::remove_file(&path);
-                sqlite_file(&path, 4).await
+                let s = sqlite_file(&path, 4).await;
+                simworld::populate::install_commit_hold(&s, 4).await;
+                s
             } else {
                 sqlite_memory().await
             };
             let model = Rc::new(RefCell::new(TxModel::default()));
-            let store: GS = GatedStore::new(sqlite.clone(), WriterGate { model: model.clone() });
+            let store: GS = GatedStore::new(sqlite.clone(), WriterGate { model: model.clone(), overlap_commit: file_db });
             let mut ex = StepExec::new();
+            simworld::populate::hold_commits(false);
+            ex.overlap_release = Some(Box::new(|| simworld::populate::hold_commits(false)));
             let results: Rc<RefCell<BTreeMap<usize, Vec<Result<(), String>>>>> = Rc::new(RefCell::new(BTreeMap::new()));
             for (w, txs) in scripts.iter().cloned().enumerate() {
                 let store = store.clone();
@@ -413,7 +434,9 @@ impl Property for C10Prop {
                         cancelled.push(act);
                     }
                     Ok(Step::Ran { act, finished }) => {
-                        if !finished && !ex.runnable().contains(&act) {
+                        if !finished && ex.is_in_flight(act) {
+                            ctx::probe("commit_left_in_flight");
+                        } else if !finished && !ex.runnable().contains(&act) {
                             // Parked: on the semaphore inside begin().
                             ctx::probe("writer_parked_in_begin");
                             if cancel_in_begin == Some(act) {
